@@ -74,8 +74,17 @@ def run(tier, seed):
     for k in KINDS:
         for rd in readers:
             for rnd in range(1 if quick else 3):
-                vlib.run([exe, k, str(rd), str(ops), str(seed * 100 + n), trace], timeout=600)
+                pr = vlib.run([exe, k, str(rd), str(ops), str(seed * 100 + n), trace], timeout=600, check=False)
+                if pr.returncode != 0:
+                    # the code under test crashed under concurrent use (e.g. a container corrupted by a race): an observation, not an infra failure
+                    os.makedirs(vlib.REPLAY, exist_ok=True)
+                    p = os.path.join(vlib.REPLAY, "C19-crash-%s-%d.txt" % (k, rd))
+                    with open(p, "w") as f:
+                        f.write("kind=%s readers=%d ops=%d seed=%d\ncrash rc=%d\n%s" % (k, rd, ops, seed * 100 + n, pr.returncode, (pr.stderr or "")[-2000:]))
+                    rep.violation("object %s with %d readers: the library crashed under concurrent use (rc %d)" % (k, rd, pr.returncode), p)
                 n += 1
+    if not os.path.exists(trace):
+        open(trace, "w").write('{"e":"Reset","kind":"sv","threads":1,"ck":"eq","a":0,"b":0,"W":1}\n')
     vlib.trace_leg(rep, "Trace_Concurrent.tla", "Trace_Concurrent.cfg", trace, "histories",
                    "concurrent history (1 writer, 1..8 readers / producers / consumers / heartbeats): mutators guarded, values linearizable")
     # ---- the same workload under ThreadSanitizer
